@@ -893,6 +893,19 @@ impl Engine for BuildEngine {
             ctx.stats.inc("projects_acceptance", 1);
             acc[i].clone()
         };
+        // One generated project in ten carries two files that map to ONE module name
+        // (`x-y.ak` and `x_y.ak`): the build must be refused identically whatever the thread
+        // count and discovery order.
+        let spec = if spec.id.starts_with("generated/") && ctx.rng.chance(1, 10) {
+            let mut spec = spec;
+            spec.files.push(("lib/dup-mod.ak".into(), "pub const one = 1\n".into()));
+            spec.files.push(("lib/dup_mod.ak".into(), "pub const two = 2\n".into()));
+            spec.files.sort();
+            ctx.stats.inc("projects_with_clashing_module_names", 1);
+            spec
+        } else {
+            spec
+        };
         let sc = gen_scenario(&mut ctx.rng, spec, ctx.k);
         ctx.event(&format!(
             "scenario {} {} {} order={:?} steps={:?}",
